@@ -291,6 +291,14 @@ class World:
 
     def op_cache_replace(self, kind):
         from .faults import CACHE_REPLACEMENTS, CACHE_DERIVED
+        if kind in ("marker_torn", "marker_garbage"):
+            if not os.path.isdir(self.cache_dir):
+                return {"noop": "no_cache"}
+            write_bytes(os.path.join(self.cache_dir, MARKERS[0]), b"Signa")
+            if kind == "marker_garbage":
+                write_bytes(os.path.join(self.cache_dir, MARKERS[1]), b"\x00\xff")
+            CTX.counters["cache_replace_" + kind] += 1
+            return {}
         if kind in CACHE_DERIVED:
             b = self.cache_bytes()
             if b is None:
